@@ -158,6 +158,28 @@ func genC08(e *emitter, tier string, seed uint64) {
 		e.run("IX.exec", fmt.Sprint(eras[i%2]|fForkID), hexE(u), hexE(l), descTx(tx), fmt.Sprint(i%2), "5000")
 		e.note("with-tx")
 	}
+	// signature checks really computing every kind of digest (the legacy ones blank and resize inputs / outputs of a copy):
+	// the caller's transaction must read the same afterwards — every hash type, every input index, both opcodes
+	{
+		k := genKey(r)
+		for _, shape := range [][2]int{{3, 3}, {2, 1}, {3, 4}} {
+			txs := genSigTx(r, shape[0], shape[1], false)
+			d := descTx(txs)
+			for idx := 0; idx < shape[0]; idx++ {
+				for _, ht := range []byte{0x01, 0x02, 0x03, 0x81, 0x82, 0x83, 0x41, 0x42, 0x43, 0xc1, 0xc2, 0xc3} {
+					fl := 0
+					if ht&0x40 != 0 {
+						fl = fForkID
+					}
+					lock := append(rawPush(k.pubC), 0xac)
+					e.run("IX.exec", fmt.Sprint(fl), hexE(rawPush(signFor(txs, idx, lock, 5000, ht, k, false))), hexE(lock), d, fmt.Sprint(idx), "5000")
+					mlock := append(append(append([]byte{0x51}, rawPush(k.pubC)...), 0x51), 0xae)
+					e.run("IX.exec", fmt.Sprint(fl|fAfterGenesis), hexE(append([]byte{0x00}, rawPush(signFor(txs, idx, mlock, 5000, ht, k, false))...)), hexE(mlock), d, fmt.Sprint(idx), "5000")
+					e.note("with-tx.signed")
+				}
+			}
+		}
+	}
 }
 
 func genC19(e *emitter, tier string, seed uint64) {
